@@ -149,6 +149,17 @@ CHECKS = {
         "back ends un-optimised and optimised, and CollTrace.tla replays every operation on the abstract registers and compares every printed result.",
    note="std sources are read from /repo/std at run time (set.sam supplied as a user module). iter() is not observed (returns unit). Inherits wasm_interp / ts_run.",
    technique="TLA+ abstract collections model checked by TLC; trace validation of compiled operation sequences against it"),
+ "C15": dict(
+   level="model_checking", design="§5 C15, §10",
+   text="Scope.tla defines binder structures (parameters, let, tuple / struct / variant patterns, or-patterns incl. nested ones, if-let, lambdas, blocks) with "
+        "the specified def/use relation next to a transcription of the checker's resolution (ssa_analysis.rs); TLC checks they agree on every structure up "
+        "to a cost bound and enumerates the well-scoped ones. Each is rendered as a function body and replayed on the real services: definition and "
+        "references at every identifier occurrence must equal the specified relation, renaming to a fresh name must parse, keep the diagnostics and the "
+        "behaviour (compiled and run), and renaming back must restore the formatted text; ScopeTrace.tla decides from the recorded observations. The same "
+        "consistency checks run at every local identifier of the repository's programs and of generated programs.",
+   note="Structures over 2-3 names up to cost 3-4; behaviour observed on the WebAssembly back end; parameters of interface signatures are navigated but not "
+        "renamed in the structure replay.",
+   technique="TLA+ scoping model checked by TLC; every enumerated binder structure replayed on the real services and judged by a TLA+ trace spec"),
 }
 
 NOT_YET = "machinery for this property is not built yet in this round (see DESIGN.md §9 build order)"
